@@ -22,6 +22,40 @@ type ConnSpec struct {
 	Node   string `json:"node"` // type string of the edge's node field
 	// Impl lists the prefixes of the connection interfaces (Spec.ConnIfaces) this connection implements.
 	Impl []string `json:"impl,omitempty"`
+	// NodeReq / NodeDeprecated: the node edge field's own required features / deprecation.
+	NodeReq        []string `json:"node_req,omitempty"`
+	NodeDeprecated bool     `json:"node_deprecated,omitempty"`
+	// EdgeFields are further user-supplied edge fields (ConnectionConfig.EdgeFields besides node), each
+	// with its own type, arguments, required features and deprecation.
+	EdgeFields []FieldSpec `json:"edge_fields,omitempty"`
+	// Args are extra connection arguments (ConnectionConfig.Arguments).
+	Args []ArgSpec `json:"args,omitempty"`
+	// TimeBased builds the field with apifu.TimeBasedConnection (adds atOrAfterTime / beforeTime: DateTime).
+	TimeBased bool `json:"time_based,omitempty"`
+}
+
+// cloneConn deep-copies a connection spec.
+func cloneConn(c *ConnSpec) *ConnSpec {
+	n := *c
+	n.Impl = append([]string(nil), c.Impl...)
+	n.NodeReq = append([]string(nil), c.NodeReq...)
+	n.Args = append([]ArgSpec(nil), c.Args...)
+	n.EdgeFields = nil
+	for _, f := range c.EdgeFields {
+		f.Req = append([]string(nil), f.Req...)
+		f.Args = append([]ArgSpec(nil), f.Args...)
+		n.EdgeFields = append(n.EdgeFields, f)
+	}
+	return &n
+}
+
+// userEdgeFields: the user-supplied edge fields of a connection: node (when there is one) and EdgeFields.
+func (c *ConnSpec) userEdgeFields() []FieldSpec {
+	var out []FieldSpec
+	if c.Node != "" {
+		out = append(out, FieldSpec{Name: "node", Type: c.Node, Req: c.NodeReq, Deprecated: c.NodeDeprecated})
+	}
+	return append(out, c.EdgeFields...)
 }
 
 // ConnIface is an apifu.ConnectionInterface: interfaces <Prefix>Connection and <Prefix>Edge, both
@@ -93,9 +127,7 @@ func (s *Spec) clone() *Spec {
 	}
 	for _, f := range s.Orphans {
 		nf := f
-		c := *f.Conn
-		c.Impl = append([]string(nil), f.Conn.Impl...)
-		nf.Conn = &c
+		nf.Conn = cloneConn(f.Conn)
 		out.Orphans = append(out.Orphans, nf)
 	}
 	for _, t := range s.Types {
@@ -112,9 +144,7 @@ func (s *Spec) clone() *Spec {
 			nf.Req = append([]string(nil), f.Req...)
 			nf.Args = append([]ArgSpec(nil), f.Args...)
 			if f.Conn != nil {
-				c := *f.Conn
-				c.Impl = append([]string(nil), f.Conn.Impl...)
-				nf.Conn = &c
+				nf.Conn = cloneConn(f.Conn)
 			}
 			nt.Fields = append(nt.Fields, nf)
 		}
@@ -141,6 +171,13 @@ func (s *Spec) features() []string {
 		for _, fd := range t.Fields {
 			for _, f := range fd.Req {
 				set[f] = true
+			}
+			if fd.Conn != nil {
+				for _, ef := range fd.Conn.userEdgeFields() {
+					for _, f := range ef.Req {
+						set[f] = true
+					}
+				}
 			}
 		}
 	}
@@ -221,10 +258,8 @@ func expand(s *Spec) *Spec {
 				{Name: "pageInfo", Type: "PageInfo!"},
 				{Name: "totalCount", Type: "Int!"},
 			}},
-			TypeSpec{Kind: "object", Name: c.Prefix + "Edge", Req: append([]string(nil), req...), Ifaces: ei, Fields: []FieldSpec{
-				{Name: "cursor", Type: "String!"},
-				{Name: "node", Type: c.Node},
-			}})
+			TypeSpec{Kind: "object", Name: c.Prefix + "Edge", Req: append([]string(nil), req...), Ifaces: ei,
+				Fields: append([]FieldSpec{{Name: "cursor", Type: "String!"}}, cloneConn(c).userEdgeFields()...)})
 	}
 	for _, f := range out.Orphans {
 		connTypes(f.Conn, f.Req)
@@ -241,6 +276,10 @@ func expand(s *Spec) *Spec {
 			f.Conn = nil
 			f.Type = c.Prefix + "Connection"
 			f.Args = []ArgSpec{{"after", "String"}, {"before", "String"}, {"first", "Int"}, {"last", "Int"}}
+			if c.TimeBased {
+				f.Args = append(f.Args, ArgSpec{"atOrAfterTime", "DateTime"}, ArgSpec{"beforeTime", "DateTime"})
+			}
+			f.Args = append(f.Args, c.Args...)
 			connTypes(c, f.Req)
 		}
 	}
@@ -294,14 +333,24 @@ func eraseSpec(s *Spec, F map[string]bool) *Spec {
 		}
 	}
 	keepConn := func(f FieldSpec) FieldSpec {
-		c := *f.Conn
+		c := cloneConn(f.Conn)
 		c.Impl = nil
 		for _, p := range f.Conn.Impl {
 			if aliveCI[p] {
 				c.Impl = append(c.Impl, p)
 			}
 		}
-		f.Conn = &c
+		// gated edge fields go (the node field too, when it carries a requirement F does not meet)
+		if c.Node != "" && !subset(c.NodeReq, F) {
+			c.Node, c.NodeReq, c.NodeDeprecated = "", nil, false
+		}
+		c.EdgeFields = nil
+		for _, ef := range f.Conn.EdgeFields {
+			if subset(ef.Req, F) {
+				c.EdgeFields = append(c.EdgeFields, ef)
+			}
+		}
+		f.Conn = c
 		return f
 	}
 	for _, f := range s.Orphans {
@@ -450,6 +499,20 @@ func wellFormed(s *Spec) bool {
 			return false
 		}
 	}
+	timeBased := false
+	for _, f := range s.Orphans {
+		timeBased = timeBased || f.Conn.TimeBased
+	}
+	for _, t := range s.Types {
+		for _, f := range t.Fields {
+			timeBased = timeBased || f.Conn != nil && f.Conn.TimeBased
+		}
+	}
+	if timeBased {
+		if p := s.find("DateTime"); p == nil || p.Builtin != "DateTime" {
+			return false
+		}
+	}
 	return true
 }
 
@@ -463,16 +526,30 @@ func stripReq(s *Spec) *Spec {
 		out.Types[i].Req = nil
 		for j := range out.Types[i].Fields {
 			out.Types[i].Fields[j].Req = nil
+			stripConnReq(out.Types[i].Fields[j].Conn)
 		}
 	}
 	for i := range out.Orphans {
 		out.Orphans[i].Req = nil
+		stripConnReq(out.Orphans[i].Conn)
 	}
 	for i := range out.ConnIfaces {
 		out.ConnIfaces[i].Req = nil
 	}
 	return out
 }
+
+func stripConnReq(c *ConnSpec) {
+	if c == nil {
+		return
+	}
+	c.NodeReq = nil
+	for i := range c.EdgeFields {
+		c.EdgeFields[i].Req = nil
+	}
+}
+
+func dateTimeSpec() TypeSpec { return TypeSpec{Kind: "scalar", Name: "DateTime", Builtin: "DateTime"} }
 
 // allDirectives: the custom directives plus the two the builder always registers.
 func allDirectives(s *Spec) []DirSpec {
